@@ -26,16 +26,20 @@ from .values import VInt, VStr, Unsupported, lit
 
 
 class VPList(V.V):
-    def __init__(self, chunks, sep="/", fresh=True):
+    """`rev`: the list denoted is the *reverse* of the chunk sequence (list.reverse() toggles it;
+    _make_child builds its result back to front)"""
+
+    def __init__(self, chunks, sep="/", fresh=True, rev=False):
         self.chunks = list(chunks)
         self.sep = sep
         self.fresh = fresh
+        self.rev = rev
 
     def __repr__(self):
-        return f"PList({[(k, '...') for k, *_ in self.chunks]})"
+        return f"PList({'rev ' if self.rev else ''}{[(k, '...') for k, *_ in self.chunks]})"
 
     def copy(self, fresh=True):
-        return VPList(self.chunks, self.sep, fresh)
+        return VPList(self.chunks, self.sep, fresh, self.rev)
 
 
 class Chunks:
@@ -66,12 +70,15 @@ def from_items(items, sep="/"):
     return VPList(chunks, sep, fresh=True)
 
 
-def truth(pl):
+def truth(pl, ctx=None):
     if any(k in ("e", "s") for k, *_ in pl.chunks):
         return z3.BoolVal(True)
     if not pl.chunks:
         return z3.BoolVal(False)
-    raise Unsupported("truthiness of a possibly empty split list")
+    if ctx is None:
+        raise Unsupported("truthiness of a possibly empty split list")
+    # only split(...)[:-1] chunks: non-empty iff one of the texts has a separator
+    return z3.Or([_find(ctx, x, pl.sep) >= 0 for _, x in pl.chunks])
 
 
 def length(ctx, pl):
@@ -167,6 +174,8 @@ def join(ex, st, pl, sep, node):
     """sep.join(pl) as a string"""
     if sep.conc != pl.sep:
         raise Unsupported("join with a separator other than the split separator")
+    if getattr(pl, "rev", False):
+        raise Unsupported("join of a reversed split list")
     ctx = st.ctx
     chunks = pl.chunks
     if not chunks:
@@ -207,3 +216,66 @@ def join(ex, st, pl, sep, node):
                 end = V.name_term(ctx, r + 1, "je")
                 parts.append(V.slice_(ctx, x, V.iv(0), end))
     yield V.concat(ctx, parts), st
+
+
+# ---------------------------------------------------------------- operations on the denoted list (honouring `rev`)
+
+def l_first(ex, st, pl, node):
+    if pl.rev:
+        yield from last(ex, st, VPList(pl.chunks, pl.sep), node)
+    else:
+        yield from first(ex, st, pl, node)
+
+
+def l_last(ex, st, pl, node):
+    if pl.rev:
+        yield from first(ex, st, VPList(pl.chunks, pl.sep), node)
+    else:
+        yield from last(ex, st, pl, node)
+
+
+def l_drop_first(pl):
+    if pl.rev:
+        r = drop_last(VPList(pl.chunks, pl.sep))
+    else:
+        r = drop_first(pl)
+    return VPList(r.chunks, pl.sep, True, pl.rev)
+
+
+def l_drop_last(pl):
+    if pl.rev:
+        r = drop_first(VPList(pl.chunks, pl.sep))
+    else:
+        r = drop_last(pl)
+    return VPList(r.chunks, pl.sep, True, pl.rev)
+
+
+def l_append(pl, v):
+    if pl.rev:
+        pl.chunks = [("e", v)] + pl.chunks
+    else:
+        pl.chunks = pl.chunks + [("e", v)]
+
+
+def as_plist(v, like):
+    """a concrete list of strings as a split list with the orientation of `like`"""
+    from .values import VList, VTuple
+    if isinstance(v, VPList):
+        return v
+    if isinstance(v, (VList, VTuple)) and all(isinstance(x, VStr) for x in v.items):
+        items = list(v.items)
+        if like.rev:
+            items.reverse()
+        return VPList([("e", x) for x in items], like.sep, True, like.rev)
+    raise Unsupported("extending a split list with this value")
+
+
+def l_extend(pl, other):
+    """pl += other (in place)"""
+    other = as_plist(other, pl)
+    if other.rev != pl.rev:
+        raise Unsupported("extending a split list with a list of the other orientation")
+    if pl.rev:
+        pl.chunks = other.chunks + pl.chunks
+    else:
+        pl.chunks = pl.chunks + other.chunks
